@@ -3,7 +3,7 @@
 //! output captured as text. Parsing back is the orchestrator's job.
 //!
 //! Case JSON: {"features":[...], "events":[{"meta","ev"}...], "writer":"libtest"|"json"|"junit"|"basic",
-//!             "verbose": 0|1|2, "show_output": bool}
+//!             "verbose": 0|1|2, "show_output": bool, "short_writes": null|k (the sink accepts at most k bytes per write() call)}
 
 use cucumber::{
     Writer as _,
@@ -34,6 +34,7 @@ pub fn run(case: &Value) -> Value {
         .map(|(i, e)| tables.build(&e["ev"], e["meta"].as_u64().unwrap_or(i as u64)))
         .collect();
     let sink = Sink::default();
+    crate::dynpipe::SHORT_WRITES.with(|c| c.set(case["short_writes"].as_u64().map(|k| k as usize)));
     let v = case["verbose"].as_u64().unwrap_or(0);
     match case["writer"].as_str().unwrap_or_default() {
         "libtest" => {
@@ -69,6 +70,7 @@ pub fn run(case: &Value) -> Value {
             }
         }
     }
+    crate::dynpipe::SHORT_WRITES.with(|c| c.set(None));
     let bytes = sink.0.borrow().clone();
     json!({ "out": String::from_utf8_lossy(&bytes) })
 }
